@@ -30,7 +30,7 @@ func TestVerif(t *testing.T) {
 	driver.Main(t, driver.Harness{
 		ID:    "C03",
 		Level: "model_checking",
-		Rule: "scenario = DAG (curated family + a referrer whose subject is a layer blob + indexes (one listing the node, one naming it as subject) that carry the filtered annotation + one wide shape with 70 referrers of one manifest (default filter, Depth 0-1, four source kinds) + every U(4) shape with a subject or index) x start node x Depth 0..3 x filter (none | artifact-type regex per type present / no match / all | " +
+		Rule: "scenario = DAG (curated family + a referrer whose subject is a layer blob + indexes (one listing the node, one naming it as subject) that carry the filtered annotation + one wide shape with 70 referrers of one manifest (default filter, Depth 0-1, four source kinds) + every U(4) shape with a subject or index; thorough adds every U(5) shape on the plain memory source) x start node x Depth 0..3 x filter (none | artifact-type regex per type present / no match / all | " +
 			"annotation key, value regex | two chained annotation filters) x source kind (memory with plain descriptors, memory with rich descriptors, OCI layout written then reopened read-write / fs.FS / tar, file store, remote Repository via Referrers API / via tag schema) x API; " +
 			"for the curated shapes on the plain memory source with Depth <= 1 additionally: x one node whose content the source lost (its Fetch answers not-found), every node in turn - a failed call is not judged, a successful one by the same oracle; " +
 			"ExtendedCopy without filter is also run into a destination that already holds every node (the given node must still be tagged); " +
@@ -181,46 +181,53 @@ func jobs(tier string) []driver.Job {
 			}
 		}
 	}})
-	// sweep over U(n) shapes with an upward relation
-	n, nshard := 4, 32
-	if th {
-		n, nshard = 5, 256
+	// sweep over U(n) shapes with an upward relation: U(4) on three source kinds; thorough adds U(5) on the plain memory source
+	type usweep struct {
+		n, nshard int
+		plainOnly bool
 	}
-	for sh := 0; sh < nshard; sh++ {
-		sh := sh
-		out = append(out, driver.Job{Name: fmt.Sprintf("sweepU%d/shard%d.%d", n, sh, nshard), Run: func(c *driver.Ctx) {
-			k := 0
-			for _, d := range Universe(n) {
-				if !hasUp(d) {
-					continue
-				}
-				k++
-				if k%nshard != sh {
-					continue
-				}
-				if c.Expired() {
-					c.Capped = true
-					return
-				}
-				fs := []filter{{}, {kind: "type", re: "^application/vnd\\.oci\\.image\\.config\\.v1\\+json$"}, {kind: "type", re: "^application/vnd\\.test\\.art$"}}
-				for start := range d.Nodes {
-					if d.Nodes[start].Kind == KForeign {
+	sweeps := []usweep{{4, 32, false}}
+	if th {
+		sweeps = append(sweeps, usweep{5, 256, true})
+	}
+	for _, sw := range sweeps {
+		n, nshard, plainOnly := sw.n, sw.nshard, sw.plainOnly
+		for sh := 0; sh < nshard; sh++ {
+			sh := sh
+			out = append(out, driver.Job{Name: fmt.Sprintf("sweepU%d/shard%d.%d", n, sh, nshard), Run: func(c *driver.Ctx) {
+				k := 0
+				for _, d := range Universe(n) {
+					if !hasUp(d) {
 						continue
 					}
-					for _, f := range fs {
-						for _, depth := range []int{0, 1, 2} {
-							kinds := []string{"memory-plain"}
-							if depth == 0 {
-								kinds = []string{"memory-plain", "memory-rich", "oci-rw"}
-							}
-							for _, sk := range kinds {
-								one(c, scen{d: d, start: start, depth: depth, f: f, src: sk, api: "extgraph", conc: 2}, explore.Bounds{}, nil)
+					k++
+					if k%nshard != sh {
+						continue
+					}
+					if c.Expired() {
+						c.Capped = true
+						return
+					}
+					fs := []filter{{}, {kind: "type", re: "^application/vnd\\.oci\\.image\\.config\\.v1\\+json$"}, {kind: "type", re: "^application/vnd\\.test\\.art$"}}
+					for start := range d.Nodes {
+						if d.Nodes[start].Kind == KForeign {
+							continue
+						}
+						for _, f := range fs {
+							for _, depth := range []int{0, 1, 2} {
+								kinds := []string{"memory-plain"}
+								if depth == 0 && !plainOnly {
+									kinds = []string{"memory-plain", "memory-rich", "oci-rw"}
+								}
+								for _, sk := range kinds {
+									one(c, scen{d: d, start: start, depth: depth, f: f, src: sk, api: "extgraph", conc: 2}, explore.Bounds{}, nil)
+								}
 							}
 						}
 					}
 				}
-			}
-		}})
+			}})
+		}
 	}
 	// schedule sweep on multi-root shapes
 	for _, d := range Curated() {
